@@ -423,7 +423,10 @@ fn offspring_count(n: usize, pc: f64, both: bool, got: usize, name: &str, at: &s
     Ok(())
 }
 
-fn run_comp<P: mahf::Problem>(comp: &dyn Component<P>, problem: &P, state: &mut State<P>, name: &str, at: &str) -> Result<(), Failure> {
+fn run_comp<P: mahf::Problem + 'static>(comp: &(dyn Component<P> + 'static), problem: &P, state: &mut State<P>, name: &str, at: &str) -> Result<(), Failure> {
+    // one case in six runs the operator inside 1-3 nested scopes (the population stack and the generator live outside)
+    let comp = crate::fixtures::maybe_nested(dyn_clone::clone_box(comp), crate::engine::hash_of(&at));
+    let comp = comp.as_ref();
     match catch(|| {
         comp.init(problem, state)?;
         comp.execute(problem, state)
